@@ -146,6 +146,8 @@ class SbxRun:
         if self.cfg.get('allow_print'):
             # print() is allowed to reach the real console as well: pedal then captures through PrintingStringIO
             self.sandbox.allow_function('print')
+        if self.cfg.get('full_traceback'):
+            self.sandbox.full_traceback = True        # pedal's own frames stay in the rendered traceback
         if 'max_temp' in self.cfg:
             self.sandbox.MAXIMUM_TEMPORARY_LENGTH = self.cfg['max_temp']
         MONITOR.configure(student_files=self.student_files, instructor_files=[INSTRUCTOR_FILE],
